@@ -528,10 +528,14 @@ def run (s : State V) : List (Op V) → Except Fault (State V)
 /-- the flat specification's live list = "exact k-NN" candidates -/
 def liveSpec (dim : Nat) (ops : List (Op V)) : List (Id × V) := Flat.live m dim (ops.map Op.toFlat)
 
+def nodupB : List Id → Bool
+  | [] => true
+  | a :: t => !t.contains a && nodupB t
+
 /-- every id is added at most once, and 0 (Go: "assign an id") is never used -/
 def freshAdds (ops : List (Op V)) : Bool :=
   let ids := Flat.addedIds (ops.map Op.toFlat)
-  ids.all (· != 0) && ids.eraseDups.length == ids.length
+  ids.all (· != 0) && nodupB ids
 
 /-- a predicate on (pre-state, op) holds along the whole run, and `fin` on the last state -/
 def along (p : State V → Op V → Bool) (fin : State V → Bool) (s : State V) : List (Op V) → Bool
